@@ -108,6 +108,11 @@ def body(E, n, m, scaling, bounds, restarts, max_runs=3, use_old_rk=True, increa
             E.prove(E.implies(E.no(E.isnan(R['ret'][2])), E.no(R['ret'][2] < soln.obj)), 'C08:outer:result-not-worse-than-any-non-nan-run')
         if soln.flag == E.get('EXIT_SUCCESS'):
             E.prove(E.isfinite(soln.obj), 'C10:outer:success-never-with-a-non-finite-objective')
+        # the budget guarantee survives bad values: no run is started once the budget is spent (a run evaluates its start point unconditionally)
+        for k, R in enumerate(runs):
+            if k > 0:
+                E.prove(R['nf0'] < maxfun, 'C08:outer:no-run-started-with-budget-exhausted-after-a-bad-value-exit')
+        E.prove(E.all([soln.nf <= maxfun]), 'C08:outer:nf-within-budget')
         return
     # ---- C01: the starting point handed to every run lies inside the (scaled) box it is given
     for R in runs:
